@@ -152,6 +152,7 @@ def run_impl(case):
     complete = threading.Event()
     wire = []
     rates = []
+    calls_log = []
     state = {"gen": 0, "calls": 0}
 
     class SimClient(context.RequestContextHolder):
@@ -168,6 +169,7 @@ def run_impl(case):
             i = params["i"]
             q = reqs[i]
             state["calls"] += 1
+            entered = clock.now
             pre, post = q2f(q["pre"]), q2f(q["post"])
             if pre > 0:
                 await asyncio.sleep(pre)
@@ -178,6 +180,7 @@ def run_impl(case):
             self._progress = None if q.get("rp") is None else q2f(q["rp"])
             if case.get("complete_at") is not None and i == case["complete_at"]:
                 complete.set()
+            calls_log.append((entered, clock.now))
             v = _return_value(q["out"])
             if isinstance(v, BaseException):
                 raise v
@@ -352,6 +355,7 @@ def run_impl(case):
         out["complete_set"] = complete.is_set()
         out["end"] = clock.now
         out["runner_calls"] = state["calls"]
+        out["calls_log"] = calls_log
         out["partition_args"] = list(getattr(source, "partition_args", ()))
         return out
     finally:
@@ -768,6 +772,9 @@ def oracle_c04(ctx, case, impl):
         service, processing, latency = Fraction(s["service"]), Fraction(s["processing"]), Fraction(s["latency"])
         if not close(service, w1 - w0, exact):
             ctx.fail("service-span", f"sample {i}: service time is not response - request", str(w1 - w0), str(service))
+        c0, c1 = (Fraction(x) for x in impl["calls_log"][i])
+        if not (close(processing, c1 - c0, exact) and c0 <= w0 and w1 <= c1):
+            ctx.fail("processing-span", f"sample {i}: processing time is not the span of the runner call around the wire request", str(c1 - c0), str(processing))
         if not (service >= 0 and geq(processing, service, exact)):
             ctx.fail("service-range", f"sample {i}: 0 <= service <= processing violated", None, [str(service), str(processing)])
         if s["client"] != case["client"]["id"] or not s["task_is_task"] or s["warmup"] != tup["warmup"] or Fraction(s["start"]) != w0:
